@@ -73,14 +73,14 @@ class Leaf:
 class Stats:
     def __init__(self):
         self.paths = 0; self.queries = 0; self.solver_s = 0.0; self.wall_s = 0.0; self.steps = 0
-        self.by_status = {}; self.assert_queries = 0; self.infeasible = 0; self.cutoffs = []
+        self.by_status = {}; self.assert_queries = 0; self.infeasible = 0; self.cutoffs = []; self.xc_agree = 0; self.xc_unknown = 0
     def add(self, o):
         self.paths += o.paths; self.queries += o.queries; self.solver_s += o.solver_s; self.steps += o.steps
         self.assert_queries += o.assert_queries; self.infeasible += o.infeasible
         for k, v in o.by_status.items(): self.by_status[k] = self.by_status.get(k, 0) + v
     def as_dict(self):
         return dict(paths=self.paths, queries=self.queries, solver_s=round(self.solver_s, 3), steps=self.steps,
-                    by_status=self.by_status, assert_queries=self.assert_queries, infeasible=self.infeasible)
+                    by_status=self.by_status, assert_queries=self.assert_queries, infeasible=self.infeasible, xc_agree=self.xc_agree, xc_unknown=self.xc_unknown)
 
 def explore(prog, harness, on_leaf, profile='dev', max_paths=None, deadline=None, prefix=None, split_depth=None,
             step_budget=2_000_000, solver_timeout_ms=30000, setup=None):
@@ -136,6 +136,6 @@ def explore(prog, harness, on_leaf, profile='dev', max_paths=None, deadline=None
         if deadline is not None and time.time() > deadline:
             st.by_status['deadline'] = 1; break
         if not ctx.backtrack(): break
-    st.queries = ctx.nq; st.solver_s = ctx.tq; st.assert_queries = ctx.assert_queries
+    st.queries = ctx.nq; st.solver_s = ctx.tq; st.assert_queries = ctx.assert_queries; st.xc_agree = ctx.xc_agree; st.xc_unknown = ctx.xc_unknown
     st.wall_s = time.time() - t0
     return st
